@@ -2,6 +2,7 @@
 from ..rules import liveness as L
 from ..rules import reusable as X
 from ..rules import timeouts as T
+from ..rules import broken as B
 
 EXPLANATION = (
     "Static analysis. Decides: _resize and the reusable submit hold the same lock object; the wait for job completion "
@@ -20,4 +21,5 @@ def run(e, R, tier):
         T.r_timeout_exit,
         lambda e, R: L.r_poll(e, R, only_funcs={f.qualname for f in e.prog.funcs.values() if f.module.name == "loky.reusable_executor"}),
         L.r_wake,
+        B.r_mgr_total,
     ])
